@@ -39,6 +39,7 @@ const (
 	fBackendErr               // a backend may answer any request with an error reply
 	fSplitReplies             // a backend read may end with the first bytes of the next reply
 	fWideBatches              // up to two events per descriptor while poller tasks are pending
+	fProbe                    // the topology probe (CLUSTER NODES) may be sent to a node at any point
 )
 
 const verifTimeoutMs = 50
@@ -117,6 +118,8 @@ func replyFor(args [][]byte) []byte {
 		return out
 	case "del":
 		return []byte(":" + string(rune('0'+len(args)-1)) + "\r\n")
+	case "cluster":
+		return []byte("$4\r\nnope\r\n") // an unusable node table: the refresh loop ignores it
 	}
 	return []byte("-ERR backend got " + name + "\r\n")
 }
@@ -301,6 +304,7 @@ func HarnessWorld(prop, m1, m2, steps, kinds, faults int) {
 	}
 	touched := map[int]int{}
 	timeouts := 0
+	probes := 0
 	backendLost := false
 	lastEvent := -1
 	for s := 0; s < steps; s++ {
@@ -334,6 +338,9 @@ func HarnessWorld(prop, m1, m2, steps, kinds, faults int) {
 		}
 		if faults&fTimeout != 0 && timeouts < 1 && s > 0 && !pending {
 			enabled = append(enabled, ev{5, 0})
+		}
+		if faults&fProbe != 0 && probes < 1 {
+			enabled = append(enabled, ev{6, 0}, ev{6, 1})
 		}
 		if len(enabled) == 0 {
 			break
@@ -394,6 +401,9 @@ func HarnessWorld(prop, m1, m2, steps, kinds, faults int) {
 		case 5:
 			timeouts++
 			verifrt.Sleep(verifTimeoutMs + 20)
+		case 6:
+			probes++
+			w.Probe([]string{"A:1", "B:1"}[e.arg])
 		}
 		if !w.TasksPending() || !pending {
 			// tasks were drained, or this very event queued the first task: a new counting period
